@@ -44,7 +44,7 @@ def main():
                 print("%-40s %s APPLY-FAILED" % (name, cid))
                 missed += 1
                 continue
-            env = dict(os.environ, GV_REPO=wt, GV_EVIDENCE_DIR=wt + "/_ev", VERIF_NO_DET="1")
+            env = dict(os.environ, GV_REPO=wt, GV_EVIDENCE_DIR=wt + "/_ev", VERIF_NO_DET="1", VERIF_STOP_ON_VIOLATION="1")
             t0 = time.time()
             rc, o = sh("%s/bin/check %s --tier quick" % (ROOT, cid), cwd=ROOT, env=env)
             keys = [l.strip()[4:].split(" ")[0] for l in o.splitlines() if l.strip().startswith("key=")]
